@@ -881,6 +881,9 @@ func (g *Gen) entMsg(w *World) MsgSpec {
 		amt := u64s(uint64(1 + g.R.Intn(1000000)))
 		if g.Flags["huge"] && g.pct(20) {
 			amt = pick(g.R, []string{"9223372036854775808", "1000000000000000000000000", "28948022309329048855892746252171976963317496166410141009864396001978282409984"})
+			if g.Prop == "C14" && g.pct(25) {
+				amt = "115792089237316195423570985008687907853269984665640564039457584007913129639935" // 2^256-1
+			}
 		}
 		denom := e.Denom
 		if g.pct(4) {
